@@ -4,6 +4,7 @@ import (
 	"encoding/json"
 	"fmt"
 	mbig "math/big"
+	"sort"
 	"strings"
 	"testing"
 	"time"
@@ -177,7 +178,11 @@ func execC17(r *kernel.Run, s C17Spec) {
 		}
 		r.Eval(1)
 		r.Fault(kind)
+		one := s
+		one.OnlyFault = []string{id}
+		markPending("C17", one, id)
 		ok, why := verify(b, str)
+		clearPending()
 		if strings.HasPrefix(why, "panic") {
 			r.Violate("C17:verifier-panics", map[string]any{"fault": id}, "%s: %s", id, why)
 			return
@@ -222,6 +227,54 @@ func execC17(r *kernel.Run, s C17Spec) {
 		}
 		return t
 	}()
+	// structural faults at array boundaries: a leaf inside the LAST (or first) element of an array is
+	// nulled or deleted — per-element structure checks that stop one short are only visible there
+	var boundary []kernel.Path
+	kernel.Walk(tree, func(p kernel.Path, node any) {
+		arr, ok := node.([]any)
+		if !ok || len(arr) < 2 {
+			return
+		}
+		for _, idx := range []int{len(arr) - 1, 0} {
+			ep := append(append(kernel.Path{}, p...), fmt.Sprint(idx))
+			if m, ok := arr[idx].(map[string]any); ok {
+				for name := range m {
+					boundary = append(boundary, append(append(kernel.Path{}, ep...), name))
+				}
+			} else {
+				boundary = append(boundary, ep)
+			}
+		}
+	})
+	sort.Slice(boundary, func(i, j int) bool { return boundary[i].String() < boundary[j].String() })
+	r.Stats().Probes["array-boundary-nodes"] += len(boundary)
+	bKinds := map[string][]kernel.Path{}
+	var bNames []string
+	for _, p := range boundary {
+		k := leafKind(p)
+		if _, ok := bKinds[k]; !ok {
+			bNames = append(bNames, k)
+		}
+		bKinds[k] = append(bKinds[k], p)
+	}
+	r.Stats().Probes["array-boundary-kinds"] = max(r.Stats().Probes["array-boundary-kinds"], len(bNames))
+	nStruct := 6 * s.Samples // structurally broken proofs are refused (or crash) early: cheap
+	for k := 0; k < nStruct && len(boundary) > 0; k++ {
+		ps := bKinds[bNames[hr.IntN(len(bNames))]]
+		p := ps[hr.IntN(len(ps))]
+		t2 := kernel.Clone(tree)
+		var id string
+		if hr.IntN(2) == 0 {
+			t2 = kernel.Set(t2, p, nil)
+			id = "struct:null@" + p.String()
+		} else {
+			t2 = kernel.Delete(t2, p)
+			id = "struct:delete@" + p.String()
+		}
+		r.Probe("tampered-boundary:" + leafKind(p))
+		r.Distinct(fmt.Sprintf("bits=%d boundary %s", s.PrimeBits, leafKind(p)))
+		deliver(id, "tamper-structure", kernel.Encode(t2), &st)
+	}
 	for k := 0; k < s.Samples; k++ {
 		kind := kinds[hr.IntN(len(kinds))]
 		ps := byKind[kind]
